@@ -50,7 +50,7 @@ Definition lspec_step (c : lcfg) (m : amap) (o : lop) : amap * option (result (l
 
 Definition lspec_view (m : amap) : list Z :=
   Z.of_nat (length m)
-  :: obs_rows (map (fun ap : Z * point => fst ap :: snd ap) m) ++ SEP :: zsort (akeys m).
+  :: obs_rows_in_order (map (fun ap : Z * point => fst ap :: snd ap) m) ++ SEP :: zsort (akeys m).
 
 Definition lspec_obs (m : amap) (r : option (result (list Z))) : list Z :=
   match r with
